@@ -3,6 +3,7 @@ let () =
   match Array.to_list Sys.argv with
   | _ :: "token" :: _ -> M_token.run ()
   | _ :: "cping" :: _ -> M_cping.run ()
+  | _ :: "timing2" :: _ -> M_timing.run2 ()
   | _ :: "async" :: _ -> M_async.run ()
   | _ :: "asyncw" :: _ -> M_asyncw.run ()
   | _ :: "cexec" :: _ -> M_cexec.run ()
